@@ -114,3 +114,61 @@ Theorem C08_map_nested_remove_per_actor_refuted_witness :
 Proof. exact map_T3_per_actor_refuted. Qed.
 Print Assumptions C08_map_nested_remove_per_actor_refuted_witness.
 
+
+(** * Map<K, Orswot<M>> values: per-actor delivery order suffices when no update carries a nested
+    remove (the fragment finding T3 leaves), op-based replication with duplicates
+    (proofs/MapOrswotPA.v).  A key remove that overtakes the updates it observed is parked at key
+    level and re-applied after every update; the member tables are the specification of the
+    knowledge at every step, hence equal to what causal delivery of the same ops produces. *)
+From Crdt Require Import proofs.VClock spec.MapOrswotSpec proofs.MapOrswot proofs.MapOrswotPA.
+
+Theorem C08_mapor_values_per_actor (H : list (oprec (mop oop))) : mohist_ok_pa H ->
+  forall (s : cmap orswot) (K : gset nat), moreach_pa H s K ->
+    forall k, mo_state_entries s k = mo_entries (known_ops H K) k.
+Proof. exact (mapor_values_refine_pa H). Qed.
+Print Assumptions C08_mapor_values_per_actor.
+
+(** "the result is exactly what causal delivery would have produced" *)
+Theorem C08_mapor_per_actor_equals_causal (H : list (oprec (mop oop))) (s1 s2 : cmap orswot) (K : gset nat) :
+  mohist_ok_pa H -> moreach_pa H s1 K ->
+  reach mnew (mapply orswot_valops) (mmerge orswot_valops) adm_causal False H s2 K ->
+  (forall k, mo_state_entries s1 k = mo_state_entries s2 k) /\
+  dom (mentries s1) = dom (mentries s2) /\ mclock s1 = mclock s2 /\
+  (forall k, mentry_clock s1 k = mentry_clock s2 k) /\ mdeferred s1 = mdeferred s2.
+Proof. exact (mapor_pa_eq_causal H s1 s2 K). Qed.
+Print Assumptions C08_mapor_per_actor_equals_causal.
+
+(** such histories contain no nested remove, and nothing is ever parked inside a nested set *)
+Theorem C08_mapor_per_actor_no_nested_pending (H : list (oprec (mop oop))) (s : cmap orswot) (K : gset nat) (k : N) (e : mentry orswot) :
+  mohist_ok_pa H -> moreach_pa H s K -> mentries s !! k = Some e ->
+  vleq (oclock (eval e)) (mclock s) /\ odeferred (eval e) = ∅.
+Proof. exact (mapor_nested_pa H s K k e). Qed.
+Print Assumptions C08_mapor_per_actor_no_nested_pending.
+
+(** non-vacuity: actor 2's key remove (context {1:1}) overtakes actor 1's update at replica X, is parked, and
+    takes effect when the update arrives; actor 3's concurrent add under the same key survives; the causal
+    replica Y ends in the same tables *)
+Theorem C08_mapor_per_actor_nonvacuous :
+  let o0 : mop oop := MUp (Dot 1 1) 7 (OAdd (Dot 1 1) [10; 11]) in
+  let o1 : mop oop := MRm {[1 := 1]} {[7]} in
+  let o2 : mop oop := MUp (Dot 3 1) 7 (OAdd (Dot 3 1) [10; 12]) in
+  let H : list (oprec (mop oop)) := [OpRec 1 o0 ∅; OpRec 2 o1 (∅ ∪ {[0%nat]}); OpRec 3 o2 ∅] in
+  let K : gset nat := ∅ ∪ {[2%nat]} ∪ {[1%nat]} ∪ {[0%nat]} in
+  let K' : gset nat := ∅ ∪ {[0%nat]} ∪ {[1%nat]} ∪ {[2%nat]} in
+  let x1 := mapply orswot_valops (mapply orswot_valops mnew o2) o1 in
+  let x := mapply orswot_valops x1 o0 in
+  let y := mapply orswot_valops (mapply orswot_valops (mapply orswot_valops mnew o0) o1) o2 in
+  mohist_ok_pa H /\ moreach_pa H x K /\ moreach H y K' /\ moreach_pa H y K' /\ K' = K /\
+  ~ adm_causal H (∅ ∪ {[2%nat]}) 1%nat /\
+  known_ops H K = [o0; o1; o2] /\
+  mdeferred x1 = {[ {[1 := 1]} := {[7]} ]} /\
+  mo_state_entries x1 7 = {[10 := {[3 := 1]}; 12 := {[3 := 1]}]} /\
+  mdeferred x = ∅ /\
+  mo_state_entries x 7 = {[10 := {[3 := 1]}; 12 := {[3 := 1]}]} /\
+  mo_state_entries y 7 = {[10 := {[3 := 1]}; 12 := {[3 := 1]}]} /\
+  mo_entries (known_ops H K) 7 = {[10 := {[3 := 1]}; 12 := {[3 := 1]}]} /\
+  mo_live_dots (known_ops H K) 7 10 = [Dot 3 1] /\
+  mo_live_dots (known_ops H K) 7 11 = [] /\
+  movalspec_ok H K x = true.
+Proof. exact mapor_pa_example. Qed.
+Print Assumptions C08_mapor_per_actor_nonvacuous.
